@@ -21,7 +21,7 @@ RULE = (
     "fresh name; distinct by (problem, compiler)."
 )
 SHARDS = {"quick": 16, "thorough": 16}
-CASE_TIMEOUT_S = 30  # CPU seconds per case; DNF / powerset compilations that explode are inconclusive, not judged
+CASE_TIMEOUT_S = 12  # CPU seconds per case; DNF / powerset compilations that explode are inconclusive, not judged
 
 NAME_POOL = [
     "a", "b", "c", "a_b", "b_c", "a_b_c", "c_d", "d", "A", "B", "Loc", "loc", "LOC", "x1", "x_1", "x", "1x".replace("1x", "x1y"),
@@ -221,7 +221,7 @@ def shard(ctx):
     def oracle(case):
         check(ctx, case)
 
-    ctx.run_hypothesis(comp.cases(name_pool=NAME_POOLS), oracle, ctx.scale(4800, 40000))
+    ctx.run_hypothesis(comp.cases(name_pool=NAME_POOLS), oracle, ctx.scale(9600, 60000))
 
 
 def replay(ctx, case):
